@@ -67,6 +67,22 @@ def observe(el, trace=None):
     except Exception as e:
         ok = ok and bool(r1.errors) and type(e) is type(r1.errors[0]) and str(e) == str(r1.errors[0])
     ok = ok and el.to_er7() == before
+    # ... and it does not depend on what has been READ before: navigate (read-only) to every child the structure names
+    try:
+        for name in list(el.structure_by_name or {}):
+            p = getattr(el, name.lower())
+            len(p)
+            if el.classname in ('Segment',):
+                try:
+                    p.value
+                except Exception:
+                    pass
+        r4 = el.validate(return_errors=True)
+        ok = ok and sig(r4) == sig(r1) and el.to_er7() == before
+    except Exception as e:
+        if trace is not None:
+            trace.append('validate after read-only navigation raised %r' % (e,))
+        ok = False
     if trace is not None and not ok:
         trace.append('purity/consistency failed: before %r after %r reports %r / %r / %r file %r' % (before, after, sig(r1), sig(r2), sig(r3), buf.getvalue()))
     return ok, r1
